@@ -24,7 +24,10 @@ RULE = ("cases: (a) layers.e2e — a generated tree of nested dataclasses (depth
         "sorted order in most multi-file cases), in 25% of the layers one file listed twice, paths given as str, Path, list, "
         "tuple or a str/Path mix; parse() (root-less file layout) and ArgumentParser (dest-keyed or root-less, 1-2 destinations); default "
         "layer given as default instance, set_defaults(**kw) before or after add_arguments; --config_path anywhere in argv; "
-        "separate malformed streams: unknown key at a random depth of a random source, explicit null, scalar for a nested "
+        "separate malformed streams: unknown key at a random depth (root, nested and Optional members) of a random source "
+        "(ctor / --config_path file, set_defaults kwargs), its name drawn from: plain, a field of another class, leading "
+        "underscore(s), near the one exempted key `_type_` (_type, type_, _type_x, __type__, _TYPE_), prefix / suffix / case "
+        "/ blank variants of a real field, dotted, empty string, the dest; explicit null, scalar for a nested "
         "section, _type_, stray top-level key, --config_path without the option being enabled; plus an enumerated slice "
         "(every subset of the five layers for a target leaf of small trees). (b) layers.set_default — "
         "DataclassWrapper.set_default sequences on a real wrapper, slots and FieldWrapper.default read back. (c) "
@@ -330,6 +333,8 @@ def opt_case(rng, mk):
             if f["ty"] == "bool":
                 v = not defn_value(cls, pth)
             set_path(c["cmd"], (dest,) + pth, v)
+    if rng.random() < 0.12:
+        inject(rng, c, "unknown", mk)        # incl. the sections of Optional members
     case["model"] = False     # Optional members are outside the modelled fragment
     return case
 
@@ -597,8 +602,23 @@ def inject(rng, case, kind, mk):
         cls = class_at(reg["cls"], node)
         own = {f["name"] for f in cls}
         foreign = [n for n in LEAF_NAMES + NEST_NAMES if n not in own]
-        key = rng.choice(["zz", "extra_key", rng.choice(foreign)])
+        real = rng.choice(sorted(own)) if own else "a"
+        pool = [
+            ("plain", rng.choice(["zz", "extra_key"])),
+            ("foreign-field", rng.choice(foreign)),                       # a field of some OTHER class / a sibling section
+            ("underscore", rng.choice(["_x", "__y", "_lr", "_" + real, "__" + real + "__"])),
+            ("near-type", rng.choice(["_type", "type_", "_type_x", "__type__", "_TYPE_", " _type_"])),
+            ("variant", rng.choice([real[:-1] or real + "x", real + "_", real + "s", real.upper() if real.upper() != real else real.lower(),
+                                    real.capitalize() if real.capitalize() != real else real + real, " " + real, real + " "])),
+            ("dotted", rng.choice([real + ".x", "a.b", "." + real, reg["dest"] + "." + real])),
+            ("empty", ""),
+            ("dest", reg["dest"]),
+        ]
+        pool = [(k, v) for k, v in pool if v not in own and v != "_type_"]
+        kind_name, key = rng.choice(pool)
+        # the only exempted name is exactly `_type_` (metadata written by save(..., save_dc_types=True))
         set_path(data, base + (key,), rng.choice([mk("int"), mk("str"), {"q": 1}]))
+        case.setdefault("unknown_kinds", []).append(kind_name)
     elif kind == "type_key":
         set_path(data, base + ("_type_",), "some.module.Cls")
     elif kind == "stray_top":
@@ -1351,6 +1371,10 @@ def tags(case, obs):
     t += [f"api:{c['api']}", f"nest:{c['nest']}", f"regs:{len(c['regs'])}", f"ctor:{len(c['ctor_files'])}",
           "cli:" + ("absent" if c["cli_files"] is None else str(len(c["cli_files"]))), f"addarg:{c['add_arg']}"]
     t += [f"fmt:{f['fmt']}" for f in c["ctor_files"] + (c["cli_files"] or [])]
+    t += [f"unknown-name:{k}" for k in c.get("unknown_kinds", [])]
+    for f in facts(c):
+        if f[0] == "unknown":
+            t.append(f"unknown-in:{f[1]}:depth{len(f[3]) - 2}")
     for key, kind in (("ctor_files", "ctor"), ("cli_files", "cli")):
         names = [file_name(f, kind, i) for i, f in listed(c, key)]
         if len(names) >= 2:
